@@ -117,4 +117,4 @@ def run(tier, seed):
     from simple import run_simple
     return run_simple("C16", tier, seed, gen, TRUSTED,
                       "fixed-length containers (stack; locked on nightly) decoded from every element count 0..=2n for n ∈ {8,16,24,32,64} in JSON-array, JSON-string and bincode encodings; resizable containers (Vec, HeapBytes, LockedBytes) for payload lengths 0..=69 and page boundaries; every serde object (box, secret box, sealed box, signed message, key pairs, session, kdf, pwhash) JSON and bincode round trip followed by decrypt/verify; to_bytes/from_bytes with Vec, stack and heap containers; distinct by (op, implementation answer)",
-                      ["serde_json/bincode as modelled"], runner_cfg="nightly")
+                      ["serde_json/bincode as modelled"], runner_cfg="nightly", concurrent=True)
